@@ -94,7 +94,7 @@ def cases(tier, seed):
                 for floor in ("default", "matrix"):
                     for name in _datasets(D, tier):
                         k += 1
-                        out.append(dict(C=C, D=D, i=i, j=j, w=w, floor=floor, data=name, dask=(k % 4 == 0), seed=seed, tier=tier))
+                        out.append(dict(C=C, D=D, i=i, j=j, w=w, floor=floor, data=name, dask=(k % 5 == 0), seed=seed, tier=tier))
     for a, b in itertools.permutations([(1, 1), (2, 1), (1, 2), (2, 2), (3, 2)], 2):
         out.append(dict(refusal=[list(a), list(b)], seed=seed, tier=tier))
     return out
